@@ -8,8 +8,8 @@ CONSTANTS
   AllowClose = TRUE
   FixPut = TRUE
   MaxReplace = 1
-  DelDropsEmpty = FALSE
+  DelDropsEmpty = TRUE
   CloseOnlyWithRegions = FALSE
-  FixDial = FALSE
+  FixDial = TRUE
 INVARIANTS OneCachedPerAddr DialsBounded ClosedIsTerminal
 CHECK_DEADLOCK FALSE
